@@ -1024,7 +1024,21 @@ class BuilderSim:
             self.ctx.probe("ext_api_op")
             name = "QAlloc" if op == "QAllocFree" else op
             sig = t.QOPS[name]().signature
-            a.add_op(t.qext(name), [a.find(x) for x in sig.input], list(sig.output), md, name)
+            xop = t.qext(name)
+            if self.features.get("second_ext") and ch.coin(1, 3, "from-second-extension"):
+                # one definition object, two extensions: some client asked the first extension's definition for its
+                # name (rendering, export), afterwards the definition is added to a second extension (which keeps a
+                # copy); operations instantiated from that copy belong to the second extension only
+                from semver import Version
+                from hugr import ext as hext
+                d = t.QEXT.get_op(name)
+                self.ctx.ev("query", "qualified_name", name, d.qualified_name())
+                if getattr(self, "q2", None) is None:
+                    self.q2 = hext.Extension("verif.q2", Version(0, 1, 0))
+                d2 = self.q2.operations.get(name) or self.q2.add_op_def(d)
+                xop = d2.instantiate([], t.tys.FunctionType(list(sig.input), list(sig.output)))
+                self.ctx.probe("definition_shared_by_two_extensions")
+            a.add_op(xop, [a.find(x) for x in sig.input], list(sig.output), md, name)
             return
         if op == "Not":
             a.add_op(t.Not, [a.find(t.B)], [t.B], md, "Not")
@@ -1223,7 +1237,7 @@ class BuilderSim:
         ch = self.ctx.ch
         t = T()
         self.nfuncs = getattr(self, "nfuncs", 0) + 1
-        name = f"local{self.nfuncs}"
+        name = self.func_name(f"local{self.nfuncs}")
         ins, outs = self.gen_row(2), self.gen_row(2)
         fb = a.call("define_function(parent=region)", a.b.define_function, name, ins, outs, None, a.b.parent_node)
         body = Actor(self, "func", fb, ins, None, None, required=outs)
@@ -1250,6 +1264,15 @@ class BuilderSim:
             x = x.parent if x.parent is not None else getattr(x, "def_site", None)
         return False
 
+    def func_name(self, base: str) -> str:
+        """Function names are arbitrary strings (unique here through the counter in `base`)."""
+        if not self.features.get("odd_names"):
+            return base
+        k = self.ctx.ch.weighted([4, 1, 1, 1, 1], "func-name-style")
+        if k:
+            self.ctx.probe("function_name_not_an_identifier")
+        return [base, f"two words {base}", f"f\u00fcnf.\u03bb{base}", f"vec<T>::{base}&amp;\"q\"", base + "_" + "x" * 300][k]
+
     def step_scratch(self, a: Actor):
         """Graph-level edit in the middle of a builder program: add an unused constant definition, or delete one added
         earlier.  The HUGR stays valid (a Const is a scoped definition, unused it has no edges); the freed index is
@@ -1257,6 +1280,23 @@ class BuilderSim:
         index than its parent."""
         ch = self.ctx.ch
         t = T()
+        if self.features.get("stray_links") and ch.coin(1, 3, "stray-link"):
+            # a link added by mistake beyond the signatures of both ends and deleted again: the link set is what it
+            # was, only the stores' port counts keep the high-water mark
+            cands = [n for n in a.nodes if n in self.hugr]
+            blocks = [n for n in self.hugr if type(self.hugr[n].op).__name__ == "DataflowBlock"]
+            if blocks and ch.coin(1, 2, "stray-on-block"):
+                src = dst = ch.pick(blocks, "stray-block")
+                so, do = self.hugr.num_out_ports(src) + ch.draw(2, "stray-extra"), self.hugr.num_in_ports(dst) + 1
+            elif len(cands) >= 2:
+                src, dst = ch.pick(cands, "stray-src"), ch.pick(cands, "stray-dst")
+                so, do = self.hugr.num_out_ports(src) + 1 + ch.draw(2, "stray-extra"), self.hugr.num_in_ports(dst) + 1 + ch.draw(2, "stray-extra")
+            else:
+                return
+            a.call("add_link(stray)", self.hugr.add_link, src.out(so), dst.inp(do))
+            a.call("delete_link(stray)", self.hugr.delete_link, src.out(so), dst.inp(do))
+            self.ctx.fault("stray_link_added_and_deleted")
+            return
         if self.scratch and ch.coin(1, 2, "scratch-delete"):
             n = self.scratch.pop(ch.draw(len(self.scratch), "which-scratch"))
             a.call("delete_node", self.hugr.delete_node, n)
@@ -1481,7 +1521,7 @@ class ModuleCtl:
         self.n += 1
         m = sim.module
         k = ch.weighted([6, 2, 1, 1, 2 if sim.features.get("poly", True) else 0], "module-item")
-        name = f"f{self.n}"
+        name = sim.func_name(f"f{self.n}")
         if k == 0:  # define a function
             ins = sim.gen_row(3)
             declared = ch.coin(1, 2, "declare-outputs")
